@@ -1171,6 +1171,122 @@ def o_edge_end(mir, tier, seed):
     return dict(theory='Real + Int (quadrants as their declaration order); orient2d of the robust kernel uninterpreted (three-valued)', functions=['EdgeEndKey::compare_direction'], paths=npaths, status=st, info=info, model=None, replay=('relate_units', ''))
 
 
+# ---- C14: how Polygon validation assembles its per-ring and per-pair checks into errors
+
+def canon(v):
+    v = deref(v)
+    if isinstance(v, Enum):
+        return (v.variant,) + tuple(canon(x) for x in v.fields)
+    if isinstance(v, list):
+        return tuple(canon(x) for x in v)
+    return v
+
+
+@obligation('C14', 'polygon_validation_assembly', 'Polygon::visit_validation for polygons with 0-3 holes, every pattern of empty holes, with the elementary checks (too few points, self-intersection, non-finite coordinate, relate matrices) uninterpreted and switched on one at a time, all together, or not at all: exactly the switched-on violations are reported, each once, in source order, with the ring ROLE being the position of the ring in interiors() (empty holes keep their index) and the coordinate index the position in the ring; an empty polygon reports nothing; the first Err returned by the handler ends the traversal and is returned')
+def o_polyval(mir, tier, seed):
+    fn = mir.find('geo', r'validation::polygon::<impl at [^>]*>::visit_validation')
+    import itertools
+    bad, npaths, nruns = 0, 0, 0
+    detail = []
+
+    def run_cfg(k, empty, flags, stop_at=None):
+        names = ['ext'] + ['h%d' % i for i in range(k)]
+        rings = {n: [[('c', n, 0), ('c', n, 1)] if n not in empty else [], ('ring', n)] for n in names}
+        rid = lambda r: deref(r)[1][1] if isinstance(deref(r), list) else deref(r)[1]
+        events, odd = [], []
+
+        def handler(ip, d):
+            events.append(canon(d[1][0] if isinstance(d[1], list) else d[1]))
+            if stop_at is not None and len(events) == stop_at:
+                return Enum('Err', ['stop'])
+            return Enum('Ok', [[]])
+
+        def get(ip, d):
+            im, a, b = d[0], deref(d[1]).variant, deref(d[2]).variant
+            if im[1] == 'ext' and (a, b) == ('OnBoundary', 'Inside'):
+                return Enum('OneDimensional' if ('ext_line', im[2]) in flags else 'Empty')
+            if im[1] != 'ext' and (a, b) == ('Inside', 'Inside'):
+                return Enum('TwoDimensional' if ('area', im[1], im[2]) in flags else 'Empty')
+            if im[1] != 'ext' and (a, b) == ('OnBoundary', 'OnBoundary'):
+                return Enum('OneDimensional' if ('line', im[1], im[2]) in flags else 'Empty')
+            odd.append((im, a, b))
+            return Enum('Empty')
+        uf = {'re:<geo_types::Polygon<F> as (algorithm::)?dimensions::HasDimensions>::is_empty': lambda ip, d: 'ext' in empty,
+              're:<geo_types::LineString<F> as (algorithm::)?dimensions::HasDimensions>::is_empty': lambda ip, d: rid(d[0]) in empty,
+              're:geo_types::Polygon::<\\w+>::exterior': lambda ip, d: d[0][0],
+              're:geo_types::Polygon::<\\w+>::interiors': lambda ip, d: d[0][1],
+              're:(utils::)?check_too_few_points::<\\w+>': lambda ip, d: ('too_few', rid(d[0])) in flags,
+              're:(utils::)?linestring_has_self_intersection::<\\w+>': lambda ip, d: ('self_int', rid(d[0])) in flags,
+              're:(utils::)?check_coord_is_not_finite::<\\w+>': lambda ip, d: ('nonfinite', deref(d[0])[1], deref(d[0])[2]) in flags,
+              're:<geo_types::LineString<F> as Clone>::clone': lambda ip, d: d[0],
+              're:geo_types::Polygon::<\\w+>::new': lambda ip, d: ('poly', rid(d[0])),
+              're:<geo_types::Polygon<F> as (algorithm::)?relate::Relate<F>>::relate::<.*>': lambda ip, d: ('im', d[0][1], rid(d[1])),
+              're:IntersectionMatrix::is_contains': lambda ip, d: ('not_contained', d[0][2]) not in flags,
+              're:IntersectionMatrix::get': get,
+              're:<Box<dyn FnMut\\(InvalidPolygon\\) -> Result<\\(\\), T>> as FnMut<\\(InvalidPolygon,\\)>>::call_mut': handler}
+        ip = Interp(mir, IntTheory(), EXTRA, uf)
+        poly = [rings['ext'], [rings[n] for n in names[1:]]]
+        outs = ip.call_fn(fn, [Ref(lambda: poly), ('the-handler',)], z3.BoolVal(True))
+        want = []
+        if 'ext' not in empty:
+            for i, n in enumerate(names):
+                if n in empty:
+                    continue
+                role = ('Exterior',) if i == 0 else ('Interior', i - 1)
+                if ('too_few', n) in flags:
+                    want.append(('TooFewPointsInRing', role))
+                if ('self_int', n) in flags:
+                    want.append(('SelfIntersection', role))
+                for j in (0, 1):
+                    if ('nonfinite', n, j) in flags:
+                        want.append(('NonFiniteCoord', role, (j,)))
+            for i in range(k):
+                n = 'h%d' % i
+                if n in empty:
+                    continue
+                if ('not_contained', n) in flags:
+                    want.append(('InteriorRingNotContainedInExteriorRing', ('Interior', i)))
+                if ('ext_line', n) in flags:
+                    want.append(('IntersectingRingsOnALine', ('Exterior',), ('Interior', i)))
+                for j in range(i + 1, k):
+                    m = 'h%d' % j
+                    if ('area', n, m) in flags:
+                        want.append(('IntersectingRingsOnAnArea', ('Interior', i), ('Interior', j)))
+                    if ('line', n, m) in flags:
+                        want.append(('IntersectingRingsOnALine', ('Interior', i), ('Interior', j)))
+        stopped = stop_at is not None and len(want) >= stop_at
+        if stopped:
+            want = want[:stop_at]
+        res = canon(outs[0][1]) if len(outs) == 1 else None
+        ok = len(outs) == 1 and not odd and events == want and res == (('Err', 'stop') if stopped else ('Ok', ()))
+        return ok, len(outs), (k, sorted(empty), sorted(flags), stop_at, events, want, res)
+
+    for k in (0, 1, 2, 3):
+        hs = ['h%d' % i for i in range(k)]
+        patterns = [set(c) for r in range(k + 1) for c in itertools.combinations(hs, r)] + [{'ext'}]
+        for empty in patterns:
+            allflags = []
+            for n in ['ext'] + hs:
+                allflags += [('too_few', n), ('self_int', n), ('nonfinite', n, 0), ('nonfinite', n, 1)]
+            for i, n in enumerate(hs):
+                allflags += [('not_contained', n), ('ext_line', n)]
+                for m in hs[i + 1:]:
+                    allflags += [('area', n, m), ('line', n, m)]
+            cfgs = [(set(), None), (set(allflags), None)] + [({f}, None) for f in allflags] + [(set(allflags), st) for st in (1, 2, 3, 5)]
+            for flags, stop_at in cfgs:
+                ok, np_, info_ = run_cfg(k, empty, flags, stop_at)
+                nruns += 1
+                npaths += np_
+                if not ok:
+                    bad += 1
+                    detail.append(info_)
+    st, info, model = check_unsat('polygon_validation_assembly', [z3.BoolVal(bad > 0)])
+    info['configurations'] = nruns
+    if detail:
+        info['first_failing (holes, empty rings, checks switched on, stop_at, reported, expected, result)'] = [str(x)[:600] for x in detail[:3]]
+    return dict(theory='structural (every configuration run concretely: no symbolic branch); elementary checks and relate uninterpreted', functions=['Validation for Polygon: visit_validation'], paths=npaths, status=st, info=info, model=None, replay=('polygon_validation', ''))
+
+
 # ---- C05 kernels
 
 @obligation('C05', 'line_determinant_int', 'for ALL integers: Line::determinant() = start.x*end.y - start.y*end.x (the shoelace term)')
